@@ -15,6 +15,9 @@ CLAIMED["C07"] = dict(technique="backward slicing with sanitisers (inter-procedu
 CLAIMED["C14"] = dict(technique="constant-table pairing of DEC private modes with must-call sets and guard subsets + dominance + must-pass-through on CFG (flag-aware) + provenance slicing",
   text="Decides four structural necessary conditions of clean exit: every terminal mode switched on is switched off on every path of Close and Pause (incl. raw mode, cursor, auto-wrap); the render loop stops only through exit() after quitting the previewer, closing the listener and the terminal, with EvtQuit/killPreview/cancel afterwards; temp-file lists of placeholder expansion are removed on every path; every started child is waited for and only group leaders are group-killed. Does not decide absence of panics/hangs.",
   note="Light (ANSI) renderer on linux/amd64 only; tcell/windows renderers are not compiled in this configuration; decoder index guards (P2) not built.")
+CLAIMED["C13"] = dict(technique="must-hold lockset dataflow with caller-holds-lock summaries + belief rule (Engler) + dominance + writer census",
+  text="Decides structural necessary conditions of non-interference: lock discipline inferred per run for every lock-owning struct except Terminal (7 fields / 40 accesses today), boundary-chunk copies made under the lock, every post-spawn return of scan joins the workers, one slab per worker, closed writer sets for Item fields and atomic-only access to Reader.event. Does not decide equality with a sequential filter nor races on Terminal.",
+  note="Instance-insensitive lock identity (type.field path); Terminal excluded by stated limit; go/ssa trusted.")
 NA = {
 }
 ALL = ["C%02d" % i for i in range(1, 21)]
